@@ -503,6 +503,67 @@ impl<'a> MachineAfterAluCalculations<'a> {
     }
 }
 
+/// Verification hook: the private state of a [`RawMachine`].
+#[cfg(feature = "verif-hooks")]
+#[derive(Debug, Clone, PartialEq, Eq)]
+pub struct VerifRaw {
+    pub maddr: usize,
+    pub ir: u8,
+    pub pending_register_write: Option<u8>,
+    pub pending_flag_write: bool,
+    pub pending_edge_interrupt: bool,
+    pub pending_level_interrupt: bool,
+    pub pending_wait_for_memory: bool,
+    pub alu_output: u8,
+    pub alu_carry: bool,
+    pub alu_zero: bool,
+    pub alu_negative: bool,
+    pub last_bus_read: u8,
+    pub state: State,
+}
+
+#[cfg(feature = "verif-hooks")]
+impl RawMachine {
+    /// Verification hook: read the private state.
+    pub fn verif_snapshot(&self) -> VerifRaw {
+        VerifRaw {
+            maddr: self.microprogram_ram.get_address(),
+            ir: self.instruction_register.get_raw(),
+            pending_register_write: self.pending_register_write.map(|r| {
+                let idx: usize = r.into();
+                idx as u8
+            }),
+            pending_flag_write: self.pending_flag_write.is_some(),
+            pending_edge_interrupt: self.pending_edge_interrupt.is_some(),
+            pending_level_interrupt: self.pending_level_interrupt.is_some(),
+            pending_wait_for_memory: self.pending_wait_for_memory.is_some(),
+            alu_output: self.alu_output.output(),
+            alu_carry: self.alu_output.carry_out(),
+            alu_zero: self.alu_output.zero_out(),
+            alu_negative: self.alu_output.negative_out(),
+            last_bus_read: self.last_bus_read,
+            state: self.state,
+        }
+    }
+
+    /// Verification hook: overwrite the private state.
+    pub fn verif_restore(&mut self, s: &VerifRaw) {
+        use enum_primitive::FromPrimitive;
+        self.microprogram_ram.set_address(s.maddr % 512);
+        self.instruction_register.set_raw(s.ir);
+        self.pending_register_write = s
+            .pending_register_write
+            .and_then(|r| RegisterNumber::from_u8(r % 8));
+        self.pending_flag_write = if s.pending_flag_write { Some(FlagWrite) } else { None };
+        self.pending_edge_interrupt = if s.pending_edge_interrupt { Some(Interrupt) } else { None };
+        self.pending_level_interrupt = if s.pending_level_interrupt { Some(Interrupt) } else { None };
+        self.pending_wait_for_memory = if s.pending_wait_for_memory { Some(MemoryWait) } else { None };
+        self.alu_output = AluOutput::verif_new(s.alu_output, s.alu_carry, s.alu_zero, s.alu_negative);
+        self.last_bus_read = s.last_bus_read;
+        self.state = s.state;
+    }
+}
+
 #[cfg(test)]
 mod tests {
     use super::*;
